@@ -279,6 +279,8 @@ pub fn owned_with_layout<T: El>(v: &ArrayViewD<'_, T>, lay: Lay) -> ArrayD<T> {
             a.assign(v);
             a
         }
+        // contiguous in memory: to_owned() keeps the (negative / permuted) strides - an owned array with that layout
+        Lay::Rev | Lay::RevTrail | Lay::PermTrail => v.to_owned(),
         _ => v.as_standard_layout().to_owned(),
     }
 }
@@ -386,7 +388,7 @@ macro_rules! build1_store {
                     Err(_) => return na_built(),
                 };
                 let x = match $cfg.x {
-                    Some(xr) => match owned_with_layout(&xr.view(), Lay::C).into_dimensionality::<Ix1>() {
+                    Some(xr) => match owned_with_layout(&xr.view(), xr.lay).into_dimensionality::<Ix1>() {
                         Ok(x) => Some(x),
                         Err(_) => return na_built(),
                     },
@@ -591,12 +593,12 @@ macro_rules! build2_store {
                     Ok(d) => d,
                     Err(_) => return na_built(),
                 };
-                let x = match $cfg.x.map(|r| owned_with_layout(&r.view(), Lay::C).into_dimensionality::<Ix1>()) {
+                let x = match $cfg.x.map(|r| owned_with_layout(&r.view(), r.lay).into_dimensionality::<Ix1>()) {
                     Some(Ok(x)) => Some(x),
                     Some(Err(_)) => return na_built(),
                     None => None,
                 };
-                let y = match $cfg.y.map(|r| owned_with_layout(&r.view(), Lay::C).into_dimensionality::<Ix1>()) {
+                let y = match $cfg.y.map(|r| owned_with_layout(&r.view(), r.lay).into_dimensionality::<Ix1>()) {
                     Some(Ok(y)) => Some(y),
                     Some(Err(_)) => return na_built(),
                     None => None,
